@@ -178,6 +178,7 @@ type state struct {
 	flows []flowSpec
 	ft    internaltypes.FilterTreeI
 	eng   *engState
+	engEarly *engState
 	quotas []flowSpec
 	q      *quotaState
 }
@@ -394,6 +395,26 @@ func exec(c proto.Case, o *proto.Out) []string {
 				some++
 				o.Count("q-one")
 			}
+		case w[0] == "eng" && len(w) >= 2 && w[1] == "early":
+			t, ok := parseTxn(false, w[2:])
+			if !ok {
+				outs[i] = "bad-op"
+				break
+			}
+			outs[i] = st.engEarlyReq(t, fmt.Sprintf("y%d", i), o)
+		case w[0] == "early":
+			t, ok := parseTxn(false, w[1:])
+			if !ok {
+				outs[i] = "bad-op"
+				break
+			}
+			if st.ft == nil {
+				outs[i] = "no-tree"
+				break
+			}
+			r, found := st.ft.GetFlow(t.earlyStream(fmt.Sprintf("v%d", i)))
+			outs[i] = fmtResult(r, found)
+			o.Count("early-l2")
 		case w[0] == "eng" && len(w) >= 2 && (w[1] == "req" || w[1] == "res"):
 			t, ok := parseTxn(w[1] == "res", w[2:])
 			if !ok {
